@@ -88,7 +88,18 @@ where
                 None => Err(OperationError::BacklinkMissing),
             }
         } else {
-            Ok(())
+            // A prune-flagged operation does not need its predecessor, but the log still has to
+            // grow strictly: operations at or below the latest known sequence number (for example
+            // an older prune point arriving late) must not come back.
+            match past_header {
+                Some(past_header) if header.seq_num <= past_header.seq_num => {
+                    Err(OperationError::SeqNumNonIncremental(
+                        past_header.seq_num.saturating_add(1),
+                        header.seq_num,
+                    ))
+                }
+                _ => Ok(()),
+            }
         }
     } else {
         // Operation is at the beginning of log but we've already progressed and assume a strictly
